@@ -187,6 +187,31 @@ theorem own_files_are_not_spec_files (scratch h a n m : Str) (hh : IsHex h) (ha 
 example := element_records_in_own_files "s".toList
   [(⟨"0a".toList, 1, 1⟩ : RJob Nat Nat), ⟨"0b".toList, 2, 2⟩] 1 (by decide) true (some .importScript)
 
+/-- A re-run under the default cache scope whose existing output is missing or no longer valid, and whose task
+now raises, leaves **no** output file (whatever was there before is removed first) and an error file: the scratch
+directory says "failed", so executors that infer success from the output file's existence agree with the local call. -/
+theorem rerun_failure_leaves_no_output {α β : Type} (scratch : Str) (jobs : List (RJob α β)) (i : Nat)
+    (hi : i < jobs.length) (hhex : ∀ j ∈ jobs, IsHex j.evalHash) (existing : Option Bool) (hex : existing ≠ some true)
+    (outBefore errBefore : Bool) :
+    ∃ ops, oneshotRerunOps (writeArrayFiles scratch jobs) i true existing (some .task) = .ok ops ∧
+      presentAfter (resultPath scratch jobs[i]) outBefore ops = false ∧
+      presentAfter (errorPath scratch jobs[i]) errBefore ops = true := by
+  have he : idx (writeArrayFiles scratch jobs).errorPaths i = .ok (errorPath scratch jobs[i]) := by
+    simp only [writeArrayFiles, idx_map _ _ _ hi]; rfl
+  have ho : idx (writeArrayFiles scratch jobs).outputPaths i = .ok (resultPath scratch jobs[i]) := by
+    simp only [writeArrayFiles, idx_map _ _ _ hi]; rfl
+  have hne : errorPath scratch jobs[i] ≠ resultPath scratch jobs[i] :=
+    fun e => (element_paths_distinct scratch jobs hhex i i hi hi).2.2 e.symm
+  have hcond : (true && existing == some true && ((some FailAt.task == none) || (some FailAt.task == some FailAt.task))) = false := by
+    cases existing with
+    | none => rfl
+    | some b => cases b <;> simp_all
+  refine ⟨[.remove (errorPath scratch jobs[i]), .remove (resultPath scratch jobs[i]), .writeError (errorPath scratch jobs[i])], ?_, ?_, ?_⟩
+  · simp only [oneshotRerunOps, he, hcond, oneshotOps, ho]; rfl
+  · simp [presentAfter, hne]
+  · simp [presentAfter]
+
+
 /-! ## job reuniting -/
 
 /-- Every binding `eval hash ↦ Batch job id` that `gather_inflight_jobs` produces comes from a
